@@ -83,6 +83,12 @@ class PubkeySwap:
         return self.wallet_pub(i)
 
 
+def ledger_seed(factory, host_seed):
+    """the seed the device ends up with (onboard.c: device randomness XOR host seed)"""
+    dev_rnd = hashlib.sha256(b"cx_rng" + factory.secret).digest()
+    return bytes(a ^ b for a, b in zip(dev_rnd, host_seed))
+
+
 class LedgerFactory:
     """What leaves the factory + what is installed: issuer (root of trust), device key and its
     issuer certificate, application hashes, authorized signer."""
@@ -126,8 +132,12 @@ class LedgerFactory:
 class GenuineLedger(Device, Alterable, PubkeySwap):
     page_error = UI_PROT_INVALID
 
-    def __init__(self, factory, ui_page_size=79, check_host=False):
+    def __init__(self, factory, ui_page_size=79, check_host=False, wallet_salt=b"",
+                 signer_iteration=None):
         self.f = factory
+        self.wallet_salt = wallet_salt           # varies the key of the last path only
+        self.signer_iteration = (factory.signer_iteration if signer_iteration is None
+                                 else signer_iteration)
         self.ui_page_size = ui_page_size
         self.check_host = check_host
         self.state = ST_BOOT
@@ -165,7 +175,8 @@ class GenuineLedger(Device, Alterable, PubkeySwap):
         self.reset_session()
 
     def wallet(self, path):
-        return self.f.key(b"wallet", self.seed + L.path_binary(path))
+        salt = self.wallet_salt if path == L.PATHS[-1] else b""
+        return self.f.key(b"wallet", self.seed + L.path_binary(path) + salt)
 
     def wallet_pub(self, i):
         return self.wallet(L.PATHS[i]).pub65
@@ -225,8 +236,7 @@ class GenuineLedger(Device, Alterable, PubkeySwap):
             pin = bytes(self.pin_buffer[1:1 + n])
             if not pin_policy_ok(pin):
                 raise SW(UI_INVALID_PIN)
-            dev_rnd = hashlib.sha256(b"cx_rng" + self.f.secret).digest()
-            self.seed = bytes(a ^ b for a, b in zip(dev_rnd, self.host_seed))
+            self.seed = ledger_seed(self.f, bytes(self.host_seed))
             self.pin = pin
             self.endorsement = None                       # attestation keys are wiped
             self.onboarded = True
@@ -265,7 +275,7 @@ class GenuineLedger(Device, Alterable, PubkeySwap):
                 self.ui_att = None
                 raise SW(UI_PROT_INVALID)
             self.ui_att = L.ui_message(L.UI_HEADER, data, self.wallet(L.UI_PATH).pub33,
-                                       self.f.signer_hash, self.f.signer_iteration)
+                                       self.f.signer_hash, self.signer_iteration)
             return bytes([0x80, 0x50, 0x01])
         if self.ui_att is None:
             raise SW(UI_PROT_INVALID)
